@@ -800,14 +800,17 @@ class TimedStore(typing.Generic[KT]):
         callback(entry, address)
 
     def stop_all_for_address(self, address: _T_SOCKADDR) -> None:
-        for entry, (callback, handle) in self.store[address].items():
+        # remove first, then notify immediately (same reasoning as in stop()): a deferred
+        # notification would be overtaken by a new entry added for the same key meanwhile
+        stopping = list(self.store[address].items())
+        self.store[address].clear()
+        for entry, (callback, handle) in stopping:
             if handle:
                 handle.cancel()
-            asyncio.get_event_loop().call_soon(callback, entry, address)
-        self.store[address].clear()
+            callback(entry, address)
 
     def stop_all(self) -> None:
-        for addr in self.store.keys():
+        for addr in list(self.store.keys()):
             self.stop_all_for_address(addr)
         self.store.clear()
 
@@ -833,7 +836,8 @@ class TimedStore(typing.Generic[KT]):
             )
             return
 
-        asyncio.get_event_loop().call_soon(callback, entry, address)
+        # must be called immediately, see stop()
+        callback(entry, address)
 
     def entries(self) -> typing.Iterator[KT]:
         return itertools.chain.from_iterable(x.keys() for x in self.store.values())
